@@ -957,3 +957,19 @@ Qed.
 Theorem too_big_rejected : forall l t,
   spec_scan l = Some t -> fits t = false -> scan l = SErr InvalidDecimal.
 Proof. intros l t H Hf. rewrite (wf_accepted _ _ H), Hf. reflexivity. Qed.
+
+Lemma pdec_of_value : forall t, (pdec_value (pdec_of t) == lit_value t)%Q.
+Proof.
+  intros t. unfold pdec_value, lit_value, pdec_of. cbn [neg mant scale].
+  destruct (l_neg t); cbn [andb]; [|reflexivity].
+  destruct (lit_mant t =? 0) eqn:E; cbn [negb]; [|reflexivity].
+  apply N.eqb_eq in E. rewrite E. unfold Qeq. cbn [Qmult Qnum Qden Z.of_N]. lia.
+Qed.
+
+Theorem value_exact : forall l d,
+  scan l = SOk d ->
+  exists t, spec_scan l = Some t /\ (pdec_value d == lit_value t)%Q /\ scale d = lit_places t.
+Proof.
+  intros l d H. destruct (accept_only_wf _ _ H) as (t & Ht & Hf & ->).
+  exists t. split; [exact Ht|]. split; [apply pdec_of_value|reflexivity].
+Qed.
